@@ -282,6 +282,16 @@ type job struct {
 	recs    [poolSize + 1][]rawOp // per goroutine slot; slot nG is the prefix
 }
 
+func newJob(p *prog, s sut) *job {
+	j := &job{p: p, s: s, nG: len(p.gor)}
+	for _, ops := range p.gor {
+		for i := range ops {
+			j.need[i]++
+		}
+	}
+	return j
+}
+
 func (j *job) do(g int, op pop) {
 	for i := 0; i < op.pre; i++ {
 		runtime.Gosched()
@@ -301,76 +311,8 @@ func (j *job) do(g int, op pop) {
 	j.recs[g] = append(j.recs[g], r)
 }
 
-const poolSize = 4
-
-// pool keeps the client goroutines of a group of histories alive and
-// spinning between histories. Goroutines that are started (or woken) per
-// history all begin on the starter's P and are only gradually stolen by other
-// Ps, so that most short histories are over before two of them ever run
-// simultaneously; workers that stay hot on their own Ps overlap for real.
-type pool struct {
-	gen  atomic.Int32
-	cur  atomic.Pointer[job]
-	done atomic.Int32
-	wg   sync.WaitGroup
-}
-
-func newPool() *pool {
-	pl := &pool{}
-	for w := 0; w < poolSize; w++ {
-		pl.wg.Add(1)
-		go pl.worker(w)
-	}
-	return pl
-}
-
-func (pl *pool) worker(w int) {
-	defer pl.wg.Done()
-	for last := int32(0); ; last++ {
-		spinWait(&pl.gen, last+1)
-		j := pl.cur.Load()
-		if j == nil {
-			return
-		}
-		if w < j.nG {
-			// start barrier: every client goroutine is running before the first operation
-			j.ready.Add(1)
-			spinWait(&j.ready, int32(j.nG))
-			for i, op := range j.p.gor[w] {
-				if j.p.rounds {
-					j.arrived[i].Add(1)
-					spinWait(&j.arrived[i], j.need[i])
-				}
-				j.do(w, op)
-			}
-		}
-		pl.done.Add(1)
-	}
-}
-
-func (pl *pool) close() {
-	pl.cur.Store(nil)
-	pl.gen.Add(1)
-	pl.wg.Wait()
-}
-
-// run executes p against s and returns the recorded history sorted by call
-// stamp.
-func (pl *pool) run(p *prog, s sut) []rawOp {
-	j := &job{p: p, s: s, nG: len(p.gor)}
-	for _, op := range p.prefix {
-		j.do(j.nG, op)
-	}
-	s.fork(j.nG)
-	for _, ops := range p.gor {
-		for i := range ops {
-			j.need[i]++
-		}
-	}
-	pl.done.Store(0)
-	pl.cur.Store(j)
-	pl.gen.Add(1)
-	spinWait(&pl.done, poolSize)
+// history returns the recorded operations sorted by call stamp.
+func (j *job) history() []rawOp {
 	var h []rawOp
 	for _, r := range j.recs {
 		h = append(h, r...)
@@ -379,21 +321,87 @@ func (pl *pool) run(p *prog, s sut) []rawOp {
 	return h
 }
 
-// spinWait waits until a >= need. It first spins without yielding: a wait
-// that yields at once is passed by goroutines taking turns on one P, i.e.
-// without any parallelism; a busy spinner keeps its P, so the other
-// goroutines end up on other Ps and a barrier release finds them running
-// simultaneously. After the spin budget it yields on every iteration, so it
-// also terminates with a single P.
-func spinWait(a *atomic.Int32, need int32) {
-	for i := 0; a.Load() < need; i++ {
-		if i > spinBudget {
-			runtime.Gosched()
+const poolSize = 4
+
+// pool is the set of client goroutines. They live as long as the process and
+// stream through a whole batch of histories per hand-over: goroutines started
+// (or woken) per history all begin on the starter's P and are only gradually
+// picked up by other Ps, so most short histories would be over before two
+// clients ever ran simultaneously. Within a batch the clients stay hot on
+// their own Ps and meet at a start barrier per history (and per round in
+// lock-step programs). Every barrier wait is a *bounded* spin: the barrier
+// only serves to produce overlap, a history is valid whether or not the
+// clients met, and an unbounded spin would stall for whole OS time slices
+// whenever the machine is oversubscribed. Idle clients and the coordinator
+// block on channels.
+type pool struct {
+	in   [poolSize]chan []*job
+	done chan struct{}
+}
+
+var (
+	thePool  *pool
+	poolOnce sync.Once
+)
+
+func getPool() *pool {
+	poolOnce.Do(func() {
+		pl := &pool{done: make(chan struct{}, poolSize)}
+		for w := 0; w < poolSize; w++ {
+			pl.in[w] = make(chan []*job, 1)
+			go pl.worker(w)
 		}
+		thePool = pl
+	})
+	return thePool
+}
+
+func (pl *pool) worker(w int) {
+	for batch := range pl.in[w] {
+		for _, j := range batch {
+			if w >= j.nG {
+				continue
+			}
+			j.ready.Add(1)
+			spinBounded(&j.ready, int32(j.nG))
+			for i, op := range j.p.gor[w] {
+				if j.p.rounds {
+					j.arrived[i].Add(1)
+					spinBounded(&j.arrived[i], j.need[i])
+				}
+				j.do(w, op)
+			}
+		}
+		pl.done <- struct{}{}
 	}
 }
 
-const spinBudget = 300000
+// run executes the batch: prefixes first (sequentially, by the caller's
+// goroutine), then all client goroutines stream through the jobs.
+func (pl *pool) run(batch []*job) {
+	for _, j := range batch {
+		for _, op := range j.p.prefix {
+			j.do(j.nG, op)
+		}
+		j.s.fork(j.nG)
+	}
+	for w := 0; w < poolSize; w++ {
+		pl.in[w] <- batch
+	}
+	for w := 0; w < poolSize; w++ {
+		<-pl.done
+	}
+}
+
+// spinBounded waits until a >= need or the spin budget is used up, without
+// yielding (a wait that yields is passed by goroutines taking turns on one P,
+// i.e. without any parallelism).
+func spinBounded(a *atomic.Int32, need int32) {
+	for i := 0; i < spinBudget && a.Load() < need; i++ {
+	}
+}
+
+const spinBudget = 2000
 
 // overlaps returns the number of pairs of operations of different goroutines
 // whose [call, return] intervals intersect.
@@ -462,14 +470,16 @@ func newSUT(kind string) sut {
 func runLinGroup(idx int, g group) {
 	ls := &linStats{kind: g.kind, opKinds: map[string]int{}}
 	defer ls.flush()
-	pl := newPool()
-	defer pl.close()
-	for sub := 0; sub < g.n; sub++ {
+	batch := make([]*job, g.n)
+	for sub := range batch {
 		rng := mon.NewRNG("c14-lin-"+g.kind, idx*4096+sub)
-		p := genProg(g.kind, rng)
-		rec.Step(fmt.Sprintf("h=%d", sub))
-		s := newSUT(g.kind)
-		h := pl.run(p, s)
+		batch[sub] = newJob(genProg(g.kind, rng), newSUT(g.kind))
+	}
+	getPool().run(batch)
+	rec.Progress()
+	for sub, j := range batch {
+		p, s := j.p, j.s
+		h := j.history()
 		text := p.String()
 		replay := func() map[string]any {
 			return map[string]any{"structure": g.kind, "seed": mon.Seed(), "group": idx, "sub": sub, "program": text, "history": historyLines(s, h)}
@@ -478,6 +488,7 @@ func runLinGroup(idx int, g group) {
 		for _, r := range h {
 			if r.panicMsg != "" {
 				panicked = true
+				s.finish(h)
 				rec.Violation(idx, "lin/"+g.kind+"/panic", "an operation panicked: "+r.panicMsg, replay())
 				break
 			}
@@ -505,7 +516,7 @@ func runLinGroup(idx int, g group) {
 						best = l
 					}
 				}
-				rp["longest_partial_linearization_(history_line_numbers)"] = best
+				rp["longest_partial_linearization_(history_line_numbers_from_0)"] = best
 			}
 			rec.Violation(idx, "lin/"+g.kind+"/not-linearizable",
 				fmt.Sprintf("no sequential %s history respecting real-time order explains the recorded returns (%d ops, %d overlapping pairs)", g.kind, len(h), ov), rp)
@@ -822,6 +833,9 @@ func (s *atomSUT) finish(h []rawOp) string {
 		return id
 	}
 	for i := range h {
+		if h[i].panicMsg != "" {
+			continue
+		}
 		in, out := h[i].in.(atomIn), h[i].out.(atomOut)
 		in.obj = label(in.ptr)
 		out.obj = label(out.ptr)
